@@ -45,7 +45,7 @@ type Req struct {
 type Scenario struct {
 	Stages       []Stage  `json:"stages"`
 	NoClientAuth bool     `json:"no_client_auth"`
-	Verified     string   `json:"verified,omitempty"` // "" | accept | reject | accept-sa
+	Verified     string   `json:"verified,omitempty"` // "" | accept | reject | accept-sa | accept-nil
 	VerifiedSA   string   `json:"verified_sa,omitempty"`
 	MaxAuthTries int      `json:"max_auth_tries"`
 	PKAlgos      []string `json:"pk_algos"`
@@ -148,7 +148,7 @@ func genReq(r *rand.Rand, long bool) Req {
 func gen(r *rand.Rand, prop, tier string, index int) any {
 	s := &Scenario{FragDen: []int{0, 4}[r.IntN(2)], Switch: 2 + r.IntN(6), CloseAfter: -1}
 	if r.IntN(3) == 0 {
-		s.Verified = []string{"accept", "accept", "reject", "accept-sa"}[r.IntN(4)]
+		s.Verified = []string{"accept", "accept", "reject", "accept-sa", "accept-nil"}[r.IntN(5)]
 		s.VerifiedSA = saLists[r.IntN(len(saLists))]
 	}
 	nst := 1 + r.IntN(3)
@@ -360,6 +360,11 @@ func runHarness(c *core.Ctx, scn any) {
 				switch s.Verified {
 				case "reject":
 					return nil, errors.New("verified callback rejects")
+				case "accept-nil":
+					// accepts and deliberately returns no Permissions: the final
+					// Permissions of the connection are then nil
+					r.lastCB, r.lastCBk = nil, "verified"
+					return nil, nil
 				case "accept-sa":
 					r.permN++
 					p := &ssh.Permissions{Extensions: map[string]string{"verif-id": fmt.Sprintf("verified-%d", r.permN)}, CriticalOptions: map[string]string{"source-address": s.VerifiedSA}}
